@@ -88,7 +88,7 @@ def run(tier):
             print("MODEL-FAILURE: XfrmIn violates %s" % r["violated"])
             ev.write()
             return 2
-    for name, acc, ign in [("EofMidMemberAccepted(pinned tree, known finding)", True, False), ("DataErrorIgnored(pre-fix gzip)", False, True)]:
+    for name, acc, ign in [("EofMidMemberAccepted(pre-fix tree)", True, False), ("DataErrorIgnored(pre-fix gzip)", False, True)]:
         write_cfg(icfg, spec="IFair", constants={"EofMidMemberAccepted": acc, "DataErrorIgnored": ign}, defs={"Members": "<<2, 1>>"},
                   invariants=["Transparent", "TruncationReported", "NoSpin"], deadlock=False)
         r = run_tlc("XfrmIn", icfg, workers=2, timeout=300)
